@@ -672,9 +672,9 @@ class Monitor:
 
         def open_(zf, *a, **k):
             live = mon.active and getattr(zf, "fp", None) is not None
+            fp = o_open(zf, *a, **k)          # KeyError (no such member) / ValueError (closed archive): nothing is read
             if live:
                 mon.events.append(("read", mon.cid(zf), getattr(zf, "_verif_oid", -1)))
-            fp = o_open(zf, *a, **k)
             if live and isinstance(fp, zipfile.ZipExtFile):
                 zi = getattr(fp, "_zinfo", None) or (a[0] if a and isinstance(a[0], zipfile.ZipInfo) else None)
                 if zi is None:
@@ -1298,6 +1298,12 @@ def run(ctx):
         "hand-written model of validate_zipfile/validate_zip_bytesio/ZipContext tied by differential runs",
         "runtime monitor (wrappers around zipfile.ZipFile.__init__/open/close and zip_bomb.validate_zipfile) and the ast inventory",
         "openpyxl reads the same bytes that were validated: X-fact (both arguments are the expression io.BytesIO(raw))",
+        "the guard's input is zipfile's infolist(): central-directory sizes with ZIP64 extra fields decoded; local headers and data "
+        "descriptors are never consulted (differential: forged local headers / data-descriptor flags / ZIP64 extras through all extractors)",
+        "assumption checked at run time, not provable here (stdlib): ZipExtFile hands out at most the claimed file_size per member read; "
+        "what zlib produces internally before that truncation is third-party behaviour -> known finding inflate-exceeds-declared-size",
+        "not modelled: ElementTree parsing of the ODF manifest (oracle `enc` of is_odf_encrypted), zipfile.is_zipfile (oracle `is_zip`), "
+        "openpyxl's own member reads (monitored only), state kept outside the process (none in the code: inventory of module-level state is not done)",
     ]
     ctx.assumptions += ["entry sizes are non-negative (zipfile unpacks them as unsigned)",
                         "limits within limits_exact (ratio limits m*2^e >= 1 with byte limit * 2^max(-e,0) < 2^53) for the two-sided "
@@ -1569,6 +1575,10 @@ def run(ctx):
         opnames = ["read_bytes", "read_text", "read_xml_root", "open_stream", "exists", "namelist", "close"]
         for cname, data in zconts:
             opens, es, p1, p2 = zip_entries(data)
+            try:
+                names_of = set(_ORIG["init_cls"](io.BytesIO(data)).namelist())
+            except Exception:  # noqa
+                names_of = set()
             for _ in range(ctx.n(6, 40)):
                 prog = [rng.choice(opnames) for _ in range(rng.randint(0, 7))] + ["close"]
                 mon.record()
@@ -1581,7 +1591,7 @@ def run(ctx):
                 for op in prog:
                     member = rng.choice(["a.txt", "c.bin", "x", "missing.xml"])
                     if op in ("read_bytes", "read_text", "read_xml_root", "open_stream"):
-                        ops.append("OpRead")
+                        ops.append("(OpRead true)" if member in names_of else "(OpRead false)")
                     elif op == "close":
                         ops.append("OpClose")
                     else:
@@ -1646,10 +1656,15 @@ def run(ctx):
                 ctx.finding(f"read-before-validate:is_odf_encrypted:{cname}", f"is_odf_encrypted read a member before validation: {ev}",
                             {"container": data, "events": ev})
             infos = "None" if es is None else "(Some " + entries_coq(es) + ")"
-            pcases.append(f"(default_limits, {'true' if isz else 'false'}, (mkO {'true' if opens else 'false'} {infos} {p1} {p2}), {trace_coq(ev)})")
+            try:
+                has_m = "META-INF/manifest.xml" in _ORIG["init_cls"](io.BytesIO(data)).namelist()
+            except Exception:  # noqa
+                has_m = False
+            pcases.append(f"(default_limits, {'true' if isz else 'false'}, (mkO {'true' if opens else 'false'} {infos} {p1} {p2}), "
+                          f"{'true' if has_m else 'false'}, {trace_coq(ev)})")
             pinfo.append((cname, res, ev))
         okp, fp_, logp = coq_eval_shards(ctx, "odfprobe", prez + "From S2T Require Import C11.ModelSession.\n", "corr_odf_probe", pcases,
-                                         shard=300, ty="limits * bool * zip_oracle * list event")
+                                         shard=300, ty="limits * bool * zip_oracle * bool * list event")
         ctx.obligation("correspondence:model odf_probe_events == monitored is_odf_encrypted call", okp and not fp_,
                        (f"{len(fp_)} disagreements, first: {pinfo[fp_[0]] if fp_ else ''} " + logp)[:1000])
         ctx.traces += len(pcases)
@@ -1752,5 +1767,7 @@ META = {
                   "validate before each read; refutations outside that range. Validated only: model == code (differential), "
                   "extractor call order (runtime monitor + ast inventory), zipfile's central-directory parsing.",
     "level_note": "Trusted: Coq kernel+VM; hand-written model incl. the int/int rounding algorithm (tested against CPython and "
-                  "SpecFloat.SFdiv each run); G-dump printer; monitor wrappers; zipfile as oracle.",
+                  "SpecFloat.SFdiv each run; fdiv = SFdiv is NOT proved); G-dump printer; monitor wrappers; zipfile as oracle (central "
+                  "directory parsing, ZIP64 decoding, is_zipfile, truncation of member reads to the claimed size: checked at run time); "
+                  "ElementTree and openpyxl are outside the model (oracle / monitored only).",
 }
